@@ -457,9 +457,16 @@ where
             symbols,
             probabilities.into_iter(),
             |symbol, _, probability| {
+                // Reject oversized probabilities right away (rather than only once the caller's
+                // list is exhausted) so that invalid input can't blow up the lookup table.
+                let new_len = lookup_table
+                    .len()
+                    .checked_add(probability.into())
+                    .filter(|&new_len| new_len <= 1 << PRECISION)
+                    .ok_or(())?;
                 let index = cdf.len().as_();
                 cdf.push((lookup_table.len().as_(), symbol));
-                lookup_table.resize(lookup_table.len() + probability.into(), index);
+                lookup_table.resize(new_len, index);
                 Ok(())
             },
             infer_last_probability,
